@@ -172,11 +172,11 @@ def req_dirs(case, sequential):
 
 
 # ------------------------------------------------------------------ full runs
-def expected_bucket(bucket, a, b):
+def expected_bucket(bucket, a, b, extra=0.0):
     import numpy as np
 
     idx = np.arange(ROWS * COLS, dtype=float).reshape(ROWS, COLS)
-    off = 16.0 * float(a) + float(b)
+    off = 16.0 * float(a) + float(b) + float(extra)
     if bucket == "image":
         return np.asarray(5000.0 + off + idx, dtype=np.uint16)
     return BASE[bucket] + off + idx / 64.0
@@ -190,9 +190,16 @@ def build_mode(case, parent):
 
     save = [{f"detector.{b}.array": list(fmts)} for b, fmts in case["save"]]
     pipe = pyx.make_pipeline({"photon_collection": [{"name": "c19", "func": "probes.c19_fill",
-                                                     "arguments": {"a": float(case["a"][0]), "b": float(case["b"][0])}}]})
+                                                     "arguments": {"a": float(case["a"][0]), "b": float(case["b"][0]),
+                                                                   "as_particles": bool(case.get("particles", False)),
+                                                                   "count_scale": float(case.get("count_scale", 0.0))}}]})
     det = pyx.make_detector("CCD", ROWS, COLS)
     times = [1.0] if case["readouts"] == 1 else [1.0, 2.5]
+    if case["mode"] == "deprecated-exposure":
+        out = ExposureOutputs(output_folder=parent, save_data_to_file=save,
+                              **({"custom_dir_name": case["prefix"]} if case["prefix"] else {}))
+        mode = Exposure(readout=Readout(times=[float(i + 1) for i in range(case["readouts"])]), outputs=out)
+        return mode, det, pipe, out
     kw = {"custom_dir_name": case["prefix"]} if case["prefix"] else {}
     if case["mode"] == "exposure":
         out = ExposureOutputs(output_folder=parent, save_data_to_file=save, **kw)
@@ -556,12 +563,73 @@ def gen_runs(rng, n, mode):
                 # colliding names planted inside the fresh directory between run_mode and the first compute
                 cand = [f"detector_{bk}_{r}.{f}" for bk, fmts in save for f in fmts for r in range(len(a) * len(b))]
                 extra["plant"] = sorted(set(rng.sample(cand, min(len(cand), rng.choice([1, 2])))))
+        if any(bk == "charge" for bk, _ in save) or rng.random() < 0.3:
+            extra["particles"] = rng.random() < 0.6  # the charge bucket is (partly) held as charge clusters
         case = {"stream": f"run-{mode}", "id": i, "mode": mode, "save": save, **extra, "a": a, "b": b,
                 "readouts": rng.choice([1, 1, 2]), "prefix": prefix,
                 "starts": rng.choice([1, 1, 2, 3]) if mode != "parallel" else (1 if extra.get("plant") else rng.choice([1, 2])),
                 "pre": gen_pre(rng, [prefix])}
         cases.append(case)
     return cases
+
+
+def gen_deprecated(rng, n):
+    """`pyxel.exposure_mode` (deprecated, still exported): one save per readout with automatic numbering"""
+    cases = []
+    for i in range(n):
+        nread = [12, 3, 11, 15, 10, 23][i % 6]
+        nb = rng.choice([1, 2])
+        save = [[bk, rng.sample(["npy", "fits", "txt"], rng.choice([1, 2]))] for bk in rng.sample(BUCKETS, nb)]
+        cases.append({"stream": "run-deprecated", "id": i, "mode": "deprecated-exposure", "save": save, "a": [rng.randrange(0, 4)],
+                      "b": [rng.randrange(0, 8)], "readouts": nread, "prefix": rng.choice(["", "foo_"]), "starts": 1,
+                      "count_scale": 100.0, "particles": rng.random() < 0.3, "pre": gen_pre(rng, [""])})
+    return cases
+
+
+def run_deprecated(case, parent):
+    import numpy as np
+    import pyxel
+
+    mode, det, pipe, out = build_mode(case, parent)
+    try:
+        with patched_clock():
+            pyxel.exposure_mode(exposure=mode, detector=det, pipeline=pipe)
+    except Exception as e:  # noqa: BLE001
+        d = current_dir(out)
+        return {"error": common.err_kind(e), "msg": str(e)[:200], "dir": os.path.basename(d) if d else None,
+                "present": sorted(os.listdir(d)) if d else []}
+    run_dir = current_dir(out)
+    return {"dir": os.path.basename(run_dir), "run_dir": run_dir, "present": sorted(os.listdir(run_dir))}
+
+
+def statement_deprecated(case, impl):
+    """one file per (bucket, format, readout), numbered 1..N, each holding the bucket of its readout; nothing overwritten"""
+    import numpy as np
+
+    if "error" in impl:
+        return f"run failed with {impl['error']}: {impl['msg']} (files present: {len(impl.get('present', []))})"
+    n = case["readouts"]
+    want = {f"detector_{b}_array_{k}.{f}": (b, f, k) for b, fmts in case["save"] for f in fmts for k in range(1, n + 1)}
+    present = set(impl["present"])
+    missing = sorted(set(want) - present, key=lambda x: (len(x), x))
+    if missing:
+        return f"{n} readouts were saved but {len(missing)} file(s) are missing, e.g. '{missing[0]}' ({len(present)} files present)"
+    extra = sorted(present - set(want))
+    if extra:
+        return f"unexpected file(s) in the run directory: {extra[:3]}"
+    for name, (b, f, k) in sorted(want.items(), key=lambda kv: (kv[1][0], kv[1][1], kv[1][2])):
+        exp = expected_bucket(b, case["a"][0], case["b"][0], extra=case["count_scale"] * (k - 1))
+        path = os.path.join(impl["run_dir"], name)
+        if f == "txt":
+            data = np.atleast_2d(np.genfromtxt(path, delimiter="|"))
+            ok = data.shape == exp.shape and np.allclose(data, exp.astype(float), rtol=1e-7, atol=0)
+        else:
+            data = read_back(path, f)
+            ok = data.shape == exp.shape and np.array_equal(data, exp)
+        if not ok:
+            return (f"file '{name}' does not hold the '{b}' bucket of readout {k} "
+                    f"(first value {np.asarray(data).flat[0]!r}, expected {exp.flat[0]!r})")
+    return None
 
 
 def gen_plans(rng, n):
@@ -673,6 +741,10 @@ def evaluate(case, tmp, pool=None):
         for impl, w in results:
             impls.append(impl)
             why = why or w
+    elif s == "run-deprecated":
+        impl = run_deprecated(case, parent)
+        impls.append(impl)
+        why = statement_deprecated(case, impl)
     elif "plan" in case:
         for impl in run_plan(case, parent):
             impls.append(impl)
@@ -737,6 +809,7 @@ def body(ck: common.Check):
     cases += gen_runs(rng, 18 if quick else 200, "sequential")
     cases += gen_runs(rng, 8 if quick else 80, "parallel")
     cases += gen_plans(rng, 8 if quick else 80)
+    cases += gen_deprecated(rng, 6 if quick else 36)
 
     reqs, extra_slots = [], {}
     for c in cases:
